@@ -874,7 +874,7 @@ func TestC07(t *testing.T) {
 	h.Exhaustive(fmt.Sprintf("every ordered pair of %d operations x %d relations (x 2 backends in the thorough tier)", len(ops), len(ccRelations)))
 
 	// the harness owns the schedule at backend-call granularity
-	schedSubCheck(h, env.PerShard(env.Pick(4800, 160000)), []string{"f", "f", "k", "k", "e", "dir", "fnew", "knew", "create"}, nil)
+	schedSubCheck(h, env.PerShard(env.Pick(4800, 160000)), []string{"f", "f", "k", "k", "e", "dir", "fnew", "knew", "create", "io", "io"}, nil)
 	// concurrent first walks to one entry
 	for rep := 0; rep < env.Pick(640, 6400)/env.NShards+1; rep++ {
 		// (with a backend that has WalkGetAttr the path node is looked up exactly once per step)
